@@ -203,6 +203,20 @@ pub fn judge(ast: &Ast) -> Verdict {
     if let Some(why) = j.dont_care {
         return Verdict::DontCare(why);
     }
+    // The one clear-cut instance of the size rule: a single literal token whose text alone is at
+    // or above the limit (64 KiB) is invariant text of that size wherever it stands and whatever
+    // stands next to it.
+    let mut huge_literal = false;
+    ast.seq.walk(&mut |t, _| {
+        if let Node::Lit { text, .. } = &t.node {
+            if text.len() >= 0x10000 {
+                huge_literal = true;
+            }
+        }
+    });
+    if huge_literal {
+        return Verdict::MustReject("a literal at or above the invariant size limit");
+    }
     if size_rule_may_apply(ast) {
         return Verdict::DontCare("invariant size limit may apply");
     }
